@@ -497,6 +497,21 @@ fn ins_name<T>(r: &InsertResult<T>) -> String {
 
 /// C08 oracle: closest_* equal the sorted full scan; nodes_by_distances is exact up to the cap.
 fn check_lookups(ctx: &mut Ctx, table: &mut KBucketsTable<NodeId, u64>, local: &Id, pool: &[Id]) {
+    // which family of lookups touches the table first matters: both apply pending nodes whose timeout has run out
+    let order: [u8; 2] = if ctx.tape.choose(2) == 0 { [0, 1] } else { [1, 0] };
+    for phase in order {
+        if phase == 0 {
+            check_closest(ctx, table, local, pool);
+        } else {
+            check_by_distance(ctx, table, local);
+        }
+        if ctx.failed() {
+            return;
+        }
+    }
+}
+
+fn check_closest(ctx: &mut Ctx, table: &mut KBucketsTable<NodeId, u64>, local: &Id, pool: &[Id]) {
     let ntargets = 3;
     for _ in 0..ntargets {
         // target selection: local, stored id, id at a chosen log2 distance with low bits set, random
@@ -589,6 +604,9 @@ fn check_lookups(ctx: &mut Ctx, table: &mut KBucketsTable<NodeId, u64>, local: &
             }
         }
     }
+}
+
+fn check_by_distance(ctx: &mut Ctx, table: &mut KBucketsTable<NodeId, u64>, local: &Id) {
     // nodes_by_distances
     for _ in 0..2 {
         let nd = ctx.tape.choose(5);
